@@ -88,8 +88,23 @@ Proof. reflexivity. Qed.
 
 Ltac cmp_arith :=
   unfold mstep, add_delb, incr_del, incr_file, add_fileb, maybe_max, add64, b2n, vsize;
-  repeat match goal with |- context [if ?c then _ else _] => destruct c end;
-  cbn [m_file m_del m_delb m_fileb m_max]; unfold two32, two64 in *; lia.
+  cbn [negb]; cbv beta iota;
+  repeat match goal with
+  | |- context [if (?a <? ?b) then _ else _] => destruct (N.ltb_spec a b); cbv beta iota
+  | |- context [if ?c then _ else _] =>
+      lazymatch c with true => fail | false => fail | _ => destruct c end; cbv beta iota
+  end;
+  cbn [m_file m_del m_delb m_fileb m_max]; cbv beta iota;
+  repeat match goal with |- context [u64_of_size ?s] => generalize (u64_of_size s); intro end;
+  unfold two32, two64 in *; lia.
+
+(* lia is fast on one congruence at a time: keep only the relevant induction hypothesis *)
+Ltac cmp_all Hf Hd Hdb Hfb Hmx :=
+  split; [clear Hd Hdb Hfb Hmx; cmp_arith|];
+  split; [clear Hf Hdb Hfb Hmx; cmp_arith|];
+  split; [clear Hf Hd Hfb Hmx; cmp_arith|];
+  split; [clear Hf Hd Hdb Hmx; cmp_arith|];
+  clear Hf Hd Hdb Hfb; cmp_arith.
 
 Lemma cmp_walk : forall k m1 E, cmp k m1 E (fst (Rg (m1, [k]) E)) (fst (Rg (metric0, []) E)).
 Proof.
@@ -106,10 +121,11 @@ Proof.
       rewrite Ek. rewrite orb_true_r. cbn [orb andb].
       destruct (hask k E) eqn:Hh; cbn [negb].
       * (* a later k-entry exists: seen in both walks *)
-        repeat split; cmp_arith.
+        cmp_all Hf Hd Hdb Hfb Hmx.
       * (* the last k-entry: seen only by the walk that started with k *)
-        repeat split; cmp_arith.
+        rewrite (last_valid_absent k E Hh) in Hdb.
+        cmp_all Hf Hd Hdb Hfb Hmx.
     + (* an entry of another key: the same branch in both walks *)
       rewrite orb_false_r. cbn [orb andb].
-      destruct (hask (e_key e) E) eqn:Hh; repeat split; cmp_arith.
+      destruct (hask k E) eqn:Hhk; destruct (hask (e_key e) E) eqn:Hh; cmp_all Hf Hd Hdb Hfb Hmx.
 Qed.
